@@ -290,6 +290,14 @@ def element_of_registry(key):
     return False
 
 
+def graph_node_name(key):
+    """self._g[<index>]._params["name"]: evaluating it succeeds only for a live node (rustworkx raises IndexError otherwise),
+    and every live node's name is a key of the name registries (C16-R1 pairing)"""
+    return isinstance(key, Sym) and key.key[0] == "sub" and key.key[2] == "name" and isinstance(key.key[1], Sym) and key.key[1].key[0] == "attr" \
+        and key.key[1].key[2] == "_params" and isinstance(key.key[1].key[1], Sym) and key.key[1].key[1].key[0] == "sub" \
+        and key.key[1].key[1].key[1] == Sym(("attr", Sym(("name", "self")), "_g"))
+
+
 def c15_effect_order(model, rep, r):
     rel = model.rel("system")
     n = 0
@@ -419,6 +427,37 @@ def c16_lockstep(model, rep, r):
         rep.instance("R1", "system.System.%s name registries move in lock-step" % mname, "%s:%d" % (rel, fn.lineno), ok, "%d accepting paths" % nacc)
         n += 1
     rep.floor("R1", n, 4)
+    # every other method that stores into a name registry may only touch the entry of an existing component
+    sysc = model.cls("System")
+    others = 0
+    for fn in sysc.body:
+        if not isinstance(fn, ast.FunctionDef) or fn.name in ("add_source", "add_comp", "change_comp", "del_comp", "__init__", "from_file"):
+            continue
+        writes = [x for x in ast.walk(fn) if isinstance(x, (ast.Assign, ast.AugAssign)) and any(
+            isinstance(t, ast.Subscript) and sysrules.registry_of(t.value) in LOCKSTEP for t in (x.targets if isinstance(x, ast.Assign) else [x.target]))]
+        if not writes:
+            continue
+        others += 1
+        f2, leaves = paths(model, r, fn.name)
+        ok = True
+        for lf in leaves:
+            if lf.kind == "raise":
+                continue
+            for i, e in enumerate(lf.events):
+                if e[0] != "store":
+                    continue
+                c = classify_store(e[1])
+                if not (c and c[0] == "REG" and c[1] in LOCKSTEP):
+                    continue
+                if ("nodes", vkey(c[2])) in key_facts(lf, i) or live_node_name(c[2]) or element_of_registry(c[2]) or graph_node_name(c[2]):
+                    continue
+                ok = False
+                rep.violation("R1", "system.System.%s" % fn.name, "%s:%d" % (rel, e[3] if len(e) > 3 and isinstance(e[3], int) else fn.lineno),
+                              "stores into registry '%s' under key %s, which nothing on the path shows to be a component name: the registry gains an entry without a component (reports and the save() document then depend on the call history)" % (c[1], show_value(c[2])),
+                              "registry %s keyed by non-component in %s" % (c[1], fn.name))
+        rep.instance("R1", "system.System.%s stores registry entries of existing components only" % fn.name, "%s:%d" % (rel, fn.lineno), ok)
+    if others == 0:
+        raise AnalysisError("no configuration method writing a name registry found (set_comp_phases expected)")
 
 
 def c16_links(model, rep, r):
